@@ -180,6 +180,7 @@ class Cases:
         self.ctx, self.prefix, self.imports = ctx, prefix, imports
         self.per_file_cells, self.per_file_cases = per_file_cells, per_file_cases
         self.shared = list(shared)      # (text, ncells)
+        self.hold = False               # True: begin_case() never starts a new file (per-case definitions in use)
         self.codes = False              # True: cases are `nat` codes, 0 = fine; failing payloads get ["code"]
         self.files = []
         self._new()
@@ -194,12 +195,12 @@ class Cases:
 
     def begin_case(self):
         """call before building a case that uses lit(): may start a new file"""
-        if self.full() and self.cur["cases"]:
+        if not self.hold and self.full() and self.cur["cases"]:
             self._new()
 
     def add_def(self, name, term, ncells, ty="list cell"):
-        if (self.cur["cells"] + ncells > self.per_file_cells or len(self.cur["cases"]) > self.per_file_cases) \
-                and self.cur["cases"]:
+        if not self.hold and (self.cur["cells"] + ncells > self.per_file_cells
+                              or len(self.cur["cases"]) > self.per_file_cases) and self.cur["cases"]:
             self._new()
         self.cur["defs"].append(f"Definition {name} : {ty} :=\n  {term}.")
         self.cur["cells"] += ncells
